@@ -334,7 +334,7 @@ fn run_cases(ctx: &mut Ctx, cases: Vec<Case>) {
 }
 
 fn payload(c: &Case, line: &str, observed: &str) -> Value {
-    json!({"kind": "c06", "case": c, "sources": [{"name": "int.asn", "text": module_text(std::slice::from_ref(c))}], "line": line, "observed": observed})
+    json!({"kind": "c06", "case_json": serde_json::to_string(c).unwrap_or_default(), "sources": [{"name": "int.asn", "text": module_text(std::slice::from_ref(c))}], "line": line, "observed": observed})
 }
 
 fn combo_case(src: &mut Src, bs: &[i128]) -> Case {
@@ -395,13 +395,13 @@ pub fn run(tier: Tier, seed: u64, replay: Option<String>) -> i32 {
     ctx.assumptions = vec!["with an extension marker every integer is a permitted (extension) value, so only Integer can hold them".into()];
     if let Some(path) = replay {
         let v: Value = serde_json::from_str(&std::fs::read_to_string(&path).expect("replay")).expect("json");
-        let c: Case = serde_json::from_value(v["case"].clone()).expect("case");
+        let c: Case = case_from(&v).expect("case");
         run_cases(&mut ctx, vec![c]);
         return ctx.finish();
     }
     let mut replays = vec![];
     for (_p, v) in crate::ev::replay_files("C06") {
-        if let Ok(c) = serde_json::from_value::<Case>(v["case"].clone()) {
+        if let Some(c) = case_from(&v) {
             replays.push(c);
         }
     }
@@ -478,4 +478,13 @@ pub fn run(tier: Tier, seed: u64, replay: Option<String>) -> i32 {
     ctx.extra.insert("random_combinations".into(), json!(rnd.len()));
     run_cases(&mut ctx, rnd);
     ctx.finish()
+}
+
+/// replay files carry the case either as a JSON object (hand-written) or as a JSON string
+/// (written by the check: serde_json::Value cannot hold i128 numbers)
+fn case_from(v: &Value) -> Option<Case> {
+    if let Some(s) = v["case_json"].as_str() {
+        return serde_json::from_str(s).ok();
+    }
+    serde_json::from_value(v["case"].clone()).ok()
 }
